@@ -7,7 +7,7 @@
    was reserved from this executor's pool and not delivered yet, or is not marked in
    use at all at the moment of delivery). *)
 From Coq Require Import ZArith List Bool.
-From NQ Require Import Exec.Qmem Proofs.QmemProofs Exec.QmemSched Proofs.QmemSchedProofs.
+From NQ Require Import Exec.Qmem Proofs.QmemProofs Exec.QmemSched Proofs.QmemSchedProofs Exec.QmemStop Proofs.QmemStopProofs.
 Import ListNotations.
 Open Scope Z_scope.
 
@@ -156,6 +156,94 @@ Example C13_sched_nonvacuous :
   ss_table ss = [] /\ ss_next ss = 3.
 Proof. vm_compute. repeat split; reflexivity. Qed.
 
+(* stop_application as the generator it is (Exec/QmemStop.v): the handler yields after every
+   released qubit and other applications' events run in between.  For EVERY interleaving
+   (xreach: any list of uninterrupted operations, stop starts and stop resumptions obeying
+   xev_ok) the invariant holds in every state, also between two yields *)
+Theorem C13_stop_xinv_reachable : forall xs, xreach xs -> XInv xs.
+Proof. exact xinv_reachable. Qed.
+
+Theorem C13_stop_intermediate :
+  forall xs, XInv xs ->
+  injective (x_st xs) /\
+  (forall nd p, In (nd, p) (used (x_st xs)) <-> (mapped (x_st xs) nd p \/ In (nd, p) (resv (x_st xs)))) /\
+  (forall nd p, In (nd, p) (resv (x_st xs)) -> ~ mapped (x_st xs) nd p) /\
+  (forall x, is_pending xs x -> In x (used (x_st xs)) /\ In x (resv (x_st xs)) /\ ~ mapped (x_st xs) (fst x) (snd x)).
+Proof. exact x_intermediate. Qed.
+
+Theorem C13_stop_quiescent :
+  forall xs, XInv xs -> x_pending xs = [] -> resv (x_st xs) = [] ->
+  forall nd p, In (nd, p) (used (x_st xs)) <-> mapped (x_st xs) nd p.
+Proof. exact x_quiescent. Qed.
+
+(* isolation: an event -- also a step of a suspended stop -- changes only its own application;
+   and nobody else's event touches a suspended stop *)
+Theorem C13_stop_isolation :
+  forall xs e k', xev_pid e <> Some k' -> app_of (x_st (fst (xstep xs e))) k' = app_of (x_st xs) k'.
+Proof. exact x_isolation. Qed.
+
+Theorem C13_stop_others_keep_pending :
+  forall xs e k, xev_pid e <> Some k ->
+  aget pair_eqb k (x_pending (fst (xstep xs e))) = aget pair_eqb k (x_pending xs).
+Proof. exact x_others_keep_pending. Qed.
+
+(* progress: starting and resuming never fault; each resumption releases exactly the next qubit
+   (which nobody maps) or, past the last one, removes the application and its registry entry *)
+Theorem C13_stop_begin :
+  forall xs nd app a, XInv xs -> app_of (x_st xs) (nd, app) = Some a -> stopping xs (nd, app) = false ->
+  let r := xstep xs (XStopBegin nd app) in
+  snd r = Done /\
+  match somes (a_um a) with
+  | [] => app_of (x_st (fst r)) (nd, app) = None /\ ~ In (nd, app) (shreg (x_st (fst r))) /\
+          stopping (fst r) (nd, app) = false /\ used (x_st (fst r)) = used (x_st xs)
+  | p :: rest => aget pair_eqb (nd, app) (x_pending (fst r)) = Some rest /\
+                 (forall y, In y (used (x_st (fst r))) <-> In y (used (x_st xs)) /\ y <> (nd, p)) /\
+                 (exists a', app_of (x_st (fst r)) (nd, app) = Some a' /\ a_um a' = [])
+  end.
+Proof. exact x_stop_begin. Qed.
+
+Theorem C13_stop_step :
+  forall xs nd app ps, XInv xs -> aget pair_eqb (nd, app) (x_pending xs) = Some ps ->
+  let r := xstep xs (XStopStep nd app) in
+  snd r = Done /\
+  match ps with
+  | [] => app_of (x_st (fst r)) (nd, app) = None /\ ~ In (nd, app) (shreg (x_st (fst r))) /\
+          stopping (fst r) (nd, app) = false /\ used (x_st (fst r)) = used (x_st xs)
+  | p :: rest => aget pair_eqb (nd, app) (x_pending (fst r)) = Some rest /\
+                 (forall y, In y (used (x_st (fst r))) <-> In y (used (x_st xs)) /\ y <> (nd, p)) /\
+                 ~ mapped (x_st (fst r)) nd p /\ ~ In (nd, p) (used (x_st (fst r)))
+  end.
+Proof. exact x_stop_step. Qed.
+
+(* stop releases everything and the id can be registered again: after |pending| + 1 of its own
+   resumptions -- other events interleaved anywhere leave its pending list alone
+   (C13_stop_others_keep_pending) and preserve XInv (C13_stop_xinv_reachable) *)
+Theorem C13_stop_completes :
+  forall nd app ps xs, XInv xs -> aget pair_eqb (nd, app) (x_pending xs) = Some ps ->
+  let xs' := resume_n xs nd app (S (List.length ps)) in
+  XInv xs' /\ app_of (x_st xs') (nd, app) = None /\ ~ In (nd, app) (shreg (x_st xs')) /\
+  stopping xs' (nd, app) = false /\
+  (forall y, In y (used (x_st xs')) <-> In y (used (x_st xs)) /\ ~ (fst y = nd /\ In (snd y) ps)).
+Proof. exact x_stop_completes. Qed.
+
+Theorem C13_stop_reregister :
+  forall xs nd app ps n, XInv xs -> aget pair_eqb (nd, app) (x_pending xs) = Some ps ->
+  let xs' := resume_n xs nd app (S (List.length ps)) in
+  let r := xstep xs' (XOp (Init nd app n)) in
+  snd r = Done /\ app_of (x_st (fst r)) (nd, app) = Some (fresh_app n).
+Proof. exact x_reregister_after_stop. Qed.
+
+(* non-vacuity, the interleaving of the third-batch seed: application 1 (qubits 0, 1) is being
+   stopped; after qubit 0 is released application 0 allocates twice (gets 0, then 2 because 1
+   is still marked); the stop ends; application 0 keeps its marks and the pool hands out 1 *)
+Example C13_stop_nonvacuous :
+  xreach (xrun xinit stop_demo) /\
+  map (fun '(k, a) => (k, a_um a)) (apps (x_st (xrun xinit stop_demo))) = [((0, 0), [Some 0; Some 2; Some 1])] /\
+  used (x_st (xrun xinit stop_demo)) = [(0, 1); (0, 2); (0, 0)] /\
+  x_pending (xrun xinit stop_demo) = [] /\ resv (x_st (xrun xinit stop_demo)) = [] /\
+  x_pending (xrun xinit (firstn 7 stop_demo)) = [((0, 1), [1])].
+Proof. split; [exact stop_demo_reachable|]. vm_compute. repeat split; reflexivity. Qed.
+
 (* the environment contract is needed: the unrestricted statement is false of the
    faithful model -- a keep response naming a mapped physical qubit is accepted and
    double-maps it (replayed on the implementation by the check, stated assumption) *)
@@ -220,5 +308,14 @@ Print Assumptions C13_sched_reachable.
 Print Assumptions C13_sched_isolation.
 Print Assumptions C13_sched_owner_stable.
 Print Assumptions C13_sched_id_reuse_refuted.
+Print Assumptions C13_stop_xinv_reachable.
+Print Assumptions C13_stop_intermediate.
+Print Assumptions C13_stop_quiescent.
+Print Assumptions C13_stop_isolation.
+Print Assumptions C13_stop_others_keep_pending.
+Print Assumptions C13_stop_begin.
+Print Assumptions C13_stop_step.
+Print Assumptions C13_stop_completes.
+Print Assumptions C13_stop_reregister.
 Print Assumptions C13_inv_without_fresh_refuted.
 Print Assumptions C13_unrestricted_refuted.
